@@ -23,6 +23,11 @@ def run(tier):
     res, states = common.tlc_dump_states("MC_MCSSelect", cfg, workers=8)
     rep.add_model(res, role="enumeration of tables for replay")
     tables = [s["table"] for s in states]
+    if len(tables) > 6000:
+        # the real function starts three joblib calls per table: replay a seeded sample of the full enumeration
+        import random
+        random.Random(common.seed()).shuffle(tables)
+        tables = tables[:6000]
     tf = os.path.join(wd, "tables.json")
     with open(tf, "w") as f:
         json.dump(tables, f)
